@@ -11,6 +11,8 @@ struct Profile {
     crashes: u64,  // weight of crash / graceful stop
     resets: bool,  // allow delivery of duplicated prev=(0,0) requests etc. (always allowed; flag biases `u`)
     len: usize,
+    heal: bool,
+    churn: bool, // followers time out although a leader exists: leader changes with divergent logs (conflict paths)
 }
 
 fn pick_weighted(r: &mut Rng, opts: &[(u64, String)]) -> Option<String> {
@@ -39,7 +41,7 @@ async fn one_schedule(r: &mut Rng, n: u32, cap: u64, p: Profile) -> String {
         let electing = roles.iter().any(|x| *x == 'E' || *x == 'C');
         for i in 1..=n {
             match roles[(i - 1) as usize] {
-                'F' => opts.push((if has_leader || electing { 1 } else { 12 }, format!("t:{}", i))),
+                'F' => opts.push((if has_leader || electing { if p.churn { 5 } else { 1 } } else { 12 }, format!("t:{}", i))),
                 'C' => opts.push((12, format!("t:{}", i))),
                 'L' => {
                     opts.push((5, format!("t:{}", i)));
@@ -96,6 +98,19 @@ async fn one_schedule(r: &mut Rng, n: u32, cap: u64, p: Profile) -> String {
         c.step(&ev).await;
         evs.push(ev);
     }
+    // C32: half of the schedules end with "faults stop": restart the nodes (sometimes all but one: a minority may
+    // stay down) and run 2n+4 rounds of the fixed fair schedule
+    if p.heal {
+        let keep_down = if r.chance(1, 3) { 1 + r.below(n as u64) as u32 } else { 0 };
+        for i in 1..=n {
+            if i != keep_down && c.role_of(i) == 'D' {
+                evs.push(format!("up:{}", i));
+            }
+        }
+        // bound = elections (2n+6 rounds) + twice the catch-up distance ((longest log + 1) / cap rounds, rounded up)
+        let longest = (1..=n).map(|i| c.log_len(i)).max().unwrap_or(0);
+        evs.push(format!("h:{}", 2 * n as u64 + 6 + 2 * ((longest + cap) / cap)));
+    }
     c.shutdown().await;
     format!("n={} cap={}|{}", n, cap, evs.join(";"))
 }
@@ -104,13 +119,14 @@ pub fn generate(r: &mut Rng, count: usize, tier: &str) -> Vec<String> {
     let mut out = vec![];
     let thorough = tier == "thorough";
     for i in 0..count {
-        let n = if i % 5 == 4 { 5 } else { 3 };
+        let n = if i % 7 == 6 { 5 } else { 3 };
         let cap = *r.pick(&[1u64, 2, 2, 3, 100]);
-        let p = match i % 4 {
-            0 => Profile { faults: 0, crashes: 0, resets: false, len: 40 },
-            1 => Profile { faults: 2, crashes: 0, resets: true, len: 60 },
-            2 => Profile { faults: 1, crashes: 1, resets: false, len: 60 },
-            _ => Profile { faults: 3, crashes: 1, resets: true, len: if thorough { 120 } else { 80 } },
+        let p = match i % 5 {
+            0 => Profile { faults: 0, crashes: 0, resets: false, len: 40, heal: false, churn: false },
+            1 => Profile { faults: 2, crashes: 0, resets: true, len: 60, heal: true, churn: false },
+            2 => Profile { faults: 1, crashes: 1, resets: false, len: 60, heal: false, churn: false },
+            3 => Profile { faults: 2, crashes: 0, resets: false, len: 90, heal: true, churn: true },
+            _ => Profile { faults: 3, crashes: 1, resets: true, len: if thorough { 120 } else { 80 }, heal: true, churn: false },
         };
         let rt = new_runtime();
         let case = rt.block_on(one_schedule(r, n, cap, p));
